@@ -2,6 +2,8 @@
 
 Shared by the frame rules (C03-R1, C04-R1, C11-R3).
 """
+import ast
+
 from .effects import Effects
 
 IR_MODULES = ("src.ir.ast", "src.ir.types", "src.ir.context", "src.ir.builtins", "src.ir.java_types",
@@ -18,6 +20,37 @@ def owner_class(f):
 
 def is_ir_function(f):
     return f.module.name in IR_MODULES
+
+
+_CTOR_HELPER = {}
+
+
+def _ctor_helper(f):
+    """a method that is only ever called as `self.<name>(..)` from constructors (`__init__`) of IR classes: part of the
+    construction of the object (a constructor body split into a helper), not a later write into an existing one"""
+    key = (id(f.module), f.qualname)
+    if key in _CTOR_HELPER:
+        return _CTOR_HELPER[key]
+    ok = False
+    if f.cls is not None and f.name.startswith("_") and not f.name.startswith("__"):
+        sites, bad = 0, 0
+        repo = getattr(f.module, "_repo", None)
+        mods = list(repo.modules.values()) if repo is not None else [f.module]
+        for m in mods:
+            for n in ast.walk(m.tree):
+                if isinstance(n, ast.Call) and isinstance(n.func, ast.Attribute) and n.func.attr == f.name:
+                    sites += 1
+                    fn = n
+                    while fn is not None and not isinstance(fn, (ast.FunctionDef, ast.AsyncFunctionDef)):
+                        fn = getattr(fn, "_parent", None)
+                    if not (isinstance(n.func.value, ast.Name) and n.func.value.id == "self" and fn is not None and
+                            fn.name == "__init__"):
+                        bad += 1
+                elif isinstance(n, ast.Attribute) and n.attr == f.name and not isinstance(getattr(n, "_parent", None), ast.Call):
+                    bad += 1            # the method escapes as a value
+        ok = sites >= 1 and bad == 0
+    _CTOR_HELPER[key] = ok
+    return ok
 
 
 def classify(f, e):
@@ -53,7 +86,7 @@ def classify(f, e):
                 # self.<field>.<attr> = v : writes into an object the visitor merely refers to
                 return "ir-write", e.attr
             return "self-state", e.attr
-        if f.name == "__init__":
+        if f.name == "__init__" or _ctor_helper(f):
             return "ctor-init", e.attr
         return "ir-self", e.attr
     if e.kind in ("sub-store", "mutcall", "del") and e.root is not None and e.root != "self" and \
